@@ -162,6 +162,15 @@ func threadRun(L *LState) {
 			}
 			if parent := L.Parent; parent != nil {
 				if L.wrapped {
+					if msg, ok := lv.(LString); ok {
+						// auxwrap in lbaselib.c: a message gets the position of the function that called the
+						// wrap function in front (luaL_where(L, 1): nothing when that is a Go function)
+						if dbg, ok := parent.GetStack(1); ok && !dbg.frame.Fn.IsG {
+							if pos := parent.where(1, false); len(pos) > 0 {
+								lv = LString(pos + " " + string(msg))
+							}
+						}
+					}
 					L.SetTop(0) // the error may be a registry overflow: make room for its value
 					L.Push(lv)
 					// the thread is dead and control is back in its resumer
